@@ -20,7 +20,7 @@ import (
 var rtSizes = []int{0, 1, 511, 512, 513, 32767, 32768, 32769, 65536, 65537, 98304}
 var rtPathLens = []int{99, 100, 101, 155, 255, 256, 300}
 var rtShortNames = []string{"a", "b", "c", "d", "e", "f", "x", "y", "dir", "file.txt", "lib", ".cfg", "w", "h", ".w", "wh.x", "-n", "a b", "é", "日本語", "😀x", "ñandú", "Ω.tar", "ü",
-	"..data", "...", "..2024_01_01", ".x.", "~", "#x", "x:y", "%41", "\\x", "a*", "[a]", "?", "a\tb"}
+	"..data", "...", "..2024_01_01", ".x.", "~", "#x", "x:y", "%41", "\\x", "a*", "[a]", "?", "a\tb", "back\\slash", "\\", "a\\b\\c"}
 var rtRunes = []string{"é", "日", "😀", "ß", "語"}
 var rtIDs = []int{0, 0, 1, 1000, 1001, 65534, 65535, 100000, 2097151, 2097152, 4294967294}
 var rtFilePerms = []uint32{0o644, 0o600, 0o755, 0o4755, 0o2755, 0o6711, 0o4711, 0o2644, 0o1644, 0o000, 0o777, 0o6777, 0o4000}
@@ -194,7 +194,7 @@ func (g *rtTreeGen) target(rel string) string {
 			}
 		}
 		if r.chance(1, 25) {
-			t = "./" + rtFill(r, "long", rtPickInt(r, []int{98, 99, 100, 101, 150, 254}))
+			t = "./" + rtFill(r, "long", rtPickInt(r, []int{98, 99, 100, 101, 150, 254, 255, 256, 257, 600, 1100}))
 		}
 		if t != "" && rtStaysInside(rel, t) {
 			if t != rtCleanRel(t) {
